@@ -411,17 +411,13 @@ func runClient(c *vh.Ctx, env *vh.HTTPEnv, batch [][]op, every int) {
 		cas := map[string]any{"kind": "client", "ops": ops}
 		wSt, _, wH, wBody := specOf(ops)
 		if wSt == 204 || wSt == 304 {
-			// a status that allows no body: what a write after it does is outside the statement
-			// ("the concatenation of all body writes" cannot be delivered); only the status is judged
+			// a status that allows no body: the client can receive no body bytes, but it still
+			// receives the committed status and headers (later calls cannot alter them)
 			wBody = ""
 		}
 		c.Hit("client:request")
 		resp, err := cl.Get(fmt.Sprintf("%s/c%d", srv.URL, i))
 		if err != nil {
-			if wSt == 204 || wSt == 304 {
-				c.Hit("client:no-body-status-then-write(not judged)")
-				continue
-			}
 			c.Violation("client:no-response", fmt.Sprintf("an HTTP client gets no response (%v); the reference gives status %d, body %q", shortErr(err), wSt, wBody), cas)
 			continue
 		}
